@@ -458,9 +458,11 @@ static void vorbis_encode_residue_setup(vorbis_info *vi,
 
   codec_setup_info *ci=vi->codec_setup;
   int i;
+  vorbis_info_residue0 *r;
 
-  vorbis_info_residue0 *r=ci->residue_param[number]=
-    _ogg_malloc(sizeof(*r));
+  /* a residue number may be shared by several submaps/modes (5.1 maps) */
+  if(ci->residue_param[number])_ogg_free(ci->residue_param[number]);
+  r=ci->residue_param[number]=_ogg_malloc(sizeof(*r));
 
   memcpy(r,res->res,sizeof(*r));
   if(ci->residues<=number)ci->residues=number+1;
